@@ -25,8 +25,9 @@ Oracle (exactly the clauses of the statement):
 * the command returns: the driver came back before the watchdog (a firing watchdog is re-tried once with a larger
   bound to rule out machine load; reproduced => witness ``no-return:<phase | scripted:step>``);
 * every start with index >= 1 (a restart) has 0 < maximum_search_time < the previous start's maximum_search_time
-  (``restart:without-search-time``, ``restart:search-time-not-reduced``), and happens before the wall clock has
-  consumed the original budget (+0.5 s; ``restart:after-wall-clock-budget-exhausted``);
+  (``restart:without-search-time``, ``restart:search-time-not-reduced``), and happens while the wall-clock life time of
+  the dead workers (master's _start_time .. entry of _restart) is within the original budget (+0.5 s;
+  ``restart:after-wall-clock-budget-exhausted``);
 * the client returns ReturnCode.OK only if some worker delivered an OK result: real runs - a pid of phases.log reached
   ``done`` and is not in crashes.log; scripted runs - the stub logged ``sent`` (``ok-without-worker-result``).
 A hung (not dead) worker blocks ``recv`` for ever - outside the statement, counted as anomaly; a delivered result
@@ -69,7 +70,7 @@ ASSUMPTIONS = [
     "a worker 'delivered a result' = (real) its pid wrote 'done' to phases.log and is not listed in crashes.log, (scripted) the stub wrote "
     "'sent' after Connection.send returned; the hook's phases.log/crashes.log are trusted",
     "'search time remains' is read off the code's own account (maximum_search_time of the task at the restart must be > 0) and cross-checked "
-    "against the wall clock of the start events with 0.5 s slack",
+    "against the summed wall-clock life time of the dead workers (master's _start_time to entry of _restart) with 0.5 s slack",
     "the watchdog (real: 300 s, retry 900 s, and then only if the workers wrote nothing to phases.log for 120 s or more workers were started "
     "than the budget has seconds; scripted: T + 30 s per sequence, retry x3) stands in for 'does not return'; a timeout that does not "
     "reproduce is counted as anomaly watchdog-not-reproduced",
@@ -320,8 +321,18 @@ def check_protocol(ctx, kind, case, rec, label):
     summary = {"starts": len(starts), "refused": [r for r in restarts if r.get("ret") is False]}
 
     # ---- each restart strictly reduces the remaining search time; restarts only while search time remains
-    t0 = starts[0]["t"] if starts else None
     budget0 = starts[0]["mst"] if starts else None
+    # worker time consumed before each start, on the wall clock: sum over the dead workers of (moment the master noticed the
+    # death and entered _restart) - (the master's own _start_time of that worker); independent of the int() bookkeeping
+    consumed_before: dict = {}
+    consumed, last_start = 0.0, None
+    for e in events:
+        if e.get("ev") == "start":
+            consumed_before[e["idx"]] = consumed
+            last_start = e
+        elif e.get("ev") == "restart" and last_start is not None:
+            consumed += max(0.0, e["t"] - last_start.get("start_time", last_start["t"]))
+            last_start = None
     flagged = set()
     for prev, cur in zip(starts, starts[1:]):
         ctx.ok(cls=f"{kind}:restart-rule")
@@ -331,9 +342,10 @@ def check_protocol(ctx, kind, case, rec, label):
         elif cur["mst"] >= prev["mst"]:
             key = "restart:search-time-not-reduced"
             desc = f"worker #{cur['idx']} was started with maximum_search_time={cur['mst']}, not smaller than the previous start's {prev['mst']}"
-        elif budget0 is not None and budget0 > 0 and cur["t"] - t0 > budget0 + 0.5:
+        elif budget0 is not None and budget0 > 0 and consumed_before.get(cur["idx"], 0.0) > budget0 + 0.5:
             key = "restart:after-wall-clock-budget-exhausted"
-            desc = f"worker #{cur['idx']} was started {cur['t'] - t0:.2f} s after the first one although the search budget was {budget0} s"
+            desc = (f"worker #{cur['idx']} was started after the previous workers had lived for {consumed_before[cur['idx']]:.2f} s "
+                    f"in total although the search budget was {budget0} s")
         else:
             continue
         if key not in flagged:
@@ -352,9 +364,11 @@ def check_protocol(ctx, kind, case, rec, label):
         if not rec["delivered_ok"]:
             why = "a-non-ok-result" if rec.get("delivered_any") else "no-result"
             ctx.witness("ok-without-worker-result", f"[{label}] the client returned ReturnCode.OK although the workers delivered {why}", c)
-    elif rc is not None and rec["delivered_ok"]:
-        ctx.anomaly("non-ok-although-worker-delivered")
     tr = [e for e in events if e.get("ev") == "task-result" and "result" in e]
+    if rc is not None and rc != "OK" and rec["delivered_ok"]:
+        # (real runs: a worker that reached 'done' may itself have delivered NO_TESTS_GENERATED - that is not a lost success)
+        if not (kind == "real" and tr and tr[-1]["result"].get("return_code") not in (None, "OK")):
+            ctx.anomaly("non-ok-although-worker-delivered")
     if tr and tr[-1]["result"].get("restart_count") is not None:
         n_restarted = sum(1 for r in restarts if r.get("ret") is True)
         if tr[-1]["result"]["restart_count"] != n_restarted:
